@@ -1,3 +1,4 @@
+mod chaos;
 mod crashsim;
 mod eng;
 mod guards;
